@@ -6,7 +6,7 @@ LEVEL = "proof"
 LEVEL_TEXT = ("Lean 4 theorems about a hand-written model of the scan-line generators of libvpsc/rectangle.cpp "
               "(firstAbove/firstBelow and neighbour-set bookkeeping), for ALL rectangle arrays, ALL border values, "
               "ALL tie-break ranks (the heap-address fallback of CmpNodePos) and ALL event orders compare_events may "
-              "produce: gen_key_increases / gen_acyclic (every generated constraint goes up in the (centre, rank) key, "
+              "produce: gen_key_increases / gen_acyclic, gen_deterministic_given_rank (every generated constraint goes up in the (centre, rank) key, "
               "so the constraint graphs of generateYConstraints and of generateXConstraints in both modes are DAGs); "
               "geny_separates / genx_separates (every pair whose sweep extents meet - touching included - is kept at "
               "least half the two lengths apart by every placement satisfying the generated constraints); "
@@ -18,9 +18,12 @@ LEVEL_TEXT = ("Lean 4 theorems about a hand-written model of the scan-line gener
               "removeoverlaps) is judged by Lean checkers with proved soundness: noOverlap_sound_complete, "
               "sizesKept_sound_complete, satisfiedBy_sound_complete, acyclic_witness_sound, separation_certificate_sound.")
 LEVEL_NOTE = ("The theorems are about the model; the C++ generators are tied to it by sampled exact correspondence "
-              "(strict only when all scan-line keys are distinct and no two order-relevant events share a position; "
-              "on inputs with ties the heap-address tie-break and qsort's treatment of the inconsistent comparator "
-              "are not observable without a hook, so only the spec-determined facts - acyclic, gaps exact, every "
+              "(the model is run with rank = variable id - since /repo 5eb2448 CmpNodePos breaks ties between equal centres by "
+              "variable id and the harness passes distinct ids, so coincident centres are compared exactly too; strict "
+              "comparison is skipped only when two Close events (cy, cx0) / two Open events (cx1) share a position, "
+              "because qsort's order of same-type events under the inconsistent compare_events is unspecified; "
+              "on those inputs the event order "
+              "is not observable without a hook, so only the spec-determined facts - acyclic, gaps exact, every "
               "meeting pair chained - are checked, by proven-sound checkers). removeoverlaps as a whole (three passes "
               "through the VPSC solver, border bookkeeping with EXTRA_GAP) is NOT modelled: its real output is "
               "validated per run (no overlap > 1e-6 in both axes between the bordered rectangles, sizes, borders "
